@@ -253,8 +253,54 @@ def oriented_triangles(verts, faces):
     return sorted(out)
 
 
+def node_valued_worker(part, job):
+    """
+    special values: fields whose value AT GRID NODES equals the level exactly (r^2 on an integer grid at level 25, |x|+|y|+|z| at 5 - any
+    integer-valued or exactly representable field at a whole-number level): with and without allow_degenerate the result is a closed
+    oriented manifold (also after welding coincident vertices), and allow_degenerate=False leaves no zero-area triangle
+    """
+    _, fname, direction, allow = job
+    n = 15
+    ax = np.arange(n) - 7.0
+    X, Y, Z = np.meshgrid(ax, ax, ax, indexing="ij")
+    f, lev = {"r2": (X * X + Y * Y + Z * Z, 25.0), "l1": (np.abs(X) + np.abs(Y) + np.abs(Z), 5.0), "r2-ellipsoid": (X * X + 2 * Y * Y + 3 * Z * Z, 36.0)}[fname]
+    vol = (f if direction == "ascent" else -f).astype(np.float32)
+    L = lev if direction == "ascent" else -lev
+    case = {"kind": "smooth", "job": ["node-valued", fname, direction, allow]}
+    part.ev()
+    part.tr()
+    from chmpy.mc import marching_cubes
+
+    try:
+        v, fa, _, _ = marching_cubes(vol, L, spacing=(1.0, 1.0, 1.0), gradient_direction=direction, allow_degenerate=allow)
+    except Exception as e:
+        part.fail("node-valued:raise", "marching_cubes on the field %s at level %g (node values equal to the level, allow_degenerate=%s) raised %r" % (fname, lev, allow, e), case)
+        return
+    v, fa = np.asarray(v, dtype=float), np.asarray(fa)
+    rep = mesh.manifold_report(fa, len(v))
+    v2, f2, _ = mesh.merge_vertices(v, fa, 1e-7)
+    rep2 = mesh.manifold_report(f2, len(v2))
+    if not rep["ok"] or not rep2["ok"]:
+        part.fail("node-valued:%s" % ("open" if "closed" in (rep["reason"] + rep2["reason"]) else "invalid"), "field %s at level %g (node values equal to the level), allow_degenerate=%s, %s: %s"
+                  % (fname, lev, allow, direction, rep["reason"] or ("after welding coincident vertices: " + rep2["reason"])), case)
+        return
+    if not allow:
+        a_, b_, c_ = v[fa[:, 0]], v[fa[:, 1]], v[fa[:, 2]]
+        area = 0.5 * np.linalg.norm(np.cross(b_ - a_, c_ - a_), axis=1)
+        if (area <= 1e-12).any():
+            part.fail("node-valued:degenerate-left", "allow_degenerate=False leaves %d zero-area triangles (field %s at level %g)" % (int((area <= 1e-12).sum()), fname, lev), case)
+    inside = float(np.sum((f < lev))) + 0.5 * float(np.sum(f == lev))
+    vol_mesh = abs(mesh.signed_volume(v2, f2))
+    if not (abs(vol_mesh - inside) <= 0.25 * inside):
+        part.fail("node-valued:volume", "field %s at level %g: enclosed volume %.1f, the level set encloses about %.0f grid cells" % (fname, lev, vol_mesh, inside), case)
+    part.outcome(("node-valued", fname, direction, allow))
+    part.nstates(1)
+
+
 def smooth_worker(part, job):
     kind = job[0]
+    if kind == "node-valued":
+        return node_valued_worker(part, job)
     if kind == "blobs-nodegenerate":
         MC_OPTIONS["allow_degenerate"] = False
         try:
@@ -816,6 +862,10 @@ def run(ctx):
     for radii in ((2.0, 2.0, 2.0), (1.5, 2.5, 2.0)):
         for direction in ("descent", "ascent"):
             jobs.append(("smooth", ("ladder", radii, direction)))
+    for fname in ("r2", "l1", "r2-ellipsoid"):
+        for direction in ("ascent", "descent"):
+            for allow in (True, False):
+                jobs.append(("smooth", ("node-valued", fname, direction, allow)))
     seps = (1.0, 0.5, 0.3, 0.2)
     for name in SURF_MOLS:
         for iso in (0.002, 0.02):
@@ -875,7 +925,9 @@ def replay(ctx, case):
         block_worker(ctx, (tuple(case["shape"]), [(0, tuple(case["values"]))], 1))
     elif k == "smooth":
         j = case["job"]
-        if j[0] == "blobs":
+        if j[0] == "node-valued":
+            smooth_worker(ctx, tuple(j))
+        elif j[0] == "blobs":
             smooth_worker(ctx, (j[0], j[1], tuple(j[2]), tuple(j[3]), j[4], j[5], j[6]))
         else:
             smooth_worker(ctx, (j[0], tuple(j[1]), j[2]))
